@@ -38,7 +38,8 @@ def extra_checks(tier, root):
     out = []
     bad = []
     scanned = []
-    for pol, ind in ((1, 0), (3, 1), (4, 0)):
+    combos = ((1, 0), (1, 1), (2, 0), (2, 1), (3, 0), (3, 1), (4, 0))
+    for pol, ind in combos:
         ll = os.path.join(root, 'scan_%d_%d.ll' % (pol, ind))
         cmd = ['clang++-14', '-std=c++17', '-O0', '-fno-exceptions', '-DBOOST_NO_EXCEPTIONS', '-D' + fw.GUARD, '-DNDEBUG', '-fno-rtti', '-DBOOST_NO_RTTI',
                '-Wno-everything', '-I', fw.HARNESS_DIR, '-I', os.path.join(fw.REPO, 'include'), '-DSCEN=1', '-DPOL=%d' % pol, '-DINDIRECT=%d' % ind,
